@@ -413,7 +413,7 @@ def run_lifecycle(spec, out):
 # --------------------------------------------- other methods of cudd.pyx
 CUDD_METHODS = ['ite', 'quantify', 'forall', 'exist', 'let_const',
                 'let_compose1', 'let_compose2', 'let_rename', '_swap',
-                'var']
+                'var', '_load_dddmp']
 
 
 def method_case(M, meth, a, b, c, k, fail_at=None):
@@ -432,6 +432,7 @@ def method_case(M, meth, a, b, c, k, fail_at=None):
     want = None
     L.calls = 0
     L.fail_at = fail_at
+    L.begin_call()
     r = None
     raised = None
     try:
@@ -469,6 +470,15 @@ def method_case(M, meth, a, b, c, k, fail_at=None):
             r = m._swap(u, {x: y})
             want = tt.rename(a, n, {k % n: (k + 1) % n,
                                     (k + 1) % n: k % n})
+        elif meth == '_load_dddmp':
+            # the stub loader hands over a referenced node whose table is
+            # encoded in the file name
+            # (a node that nothing else references)
+            tl = next(x for x in range(c, c + 256)
+                      if x % 256 not in (a, b, c)
+                      and x % 256 not in P.PERMANENT) % 256
+            r = m._load_dddmp(f'{tl}.dddmp')
+            want = tl
         else:
             r = m.var(nm[k % n])
             want = tt.var(n, k % n)
@@ -477,6 +487,8 @@ def method_case(M, meth, a, b, c, k, fail_at=None):
     finally:
         L.fail_at = None
     ncalls = L.calls
+    require(not L.use_after_release, 'refs.reference_taken_after_release',
+            dict(method=meth))
     agree = None
     if raised is None:
         if r is u or r is v or r is w:
